@@ -4,6 +4,10 @@
 
    The filesystem, the preset table and the remote fetch are data: [fsys]. A path is the
    string the resolver passes to the filesystem; [fs_canon] is FileSystem::canonicalize.
+   The visited key of a file is its canonical path compared by exact equality: distinct files
+   have distinct keys (fix D100, fixes/D100-visited-key-not-lossy.patch: the key used to be the
+   lossy rendering of the path, which identified paths differing only in bytes that are not
+   UTF-8; the CLI level of the check runs chains over such directories).
    Order of effects per local base, as in the code: read, parse, depth test, canonicalize,
    visited test, recurse. Per remote base: depth test, visited test (raw URL), fetch, parse,
    recurse with no base path. Presets are not resolved further and consume no depth.
